@@ -110,6 +110,7 @@ def run_cases(cases, res):
             val = fx.Fxp(np.array(fl) if len(fl) > 1 else fl[0])
             if [Fraction(t) for t in np.asarray(val.get_val()).reshape(-1).tolist()] != [Fraction(t) for t in fl] or val.n_word > 52:
                 val = fl if len(fl) > 1 else fl[0]
+            elif (len(fl) + c['nw']) % 2: val.config.array_op_method = 'raw'      # (how the SOURCE presents itself to NumPy functions is its own matter: its VALUE is what is handed over)
         try:
             if c['route'] == 'ctor_like':
                 # sizes and modes from a template, scale and bias given explicitly
